@@ -82,20 +82,6 @@ theorem arr3_eq_of_zeroBelow {n : Nat} {a b : Arr3 UInt32} (hz : zeroBelow n a =
   simp only [Arr3.get?, Option.some.injEq] at h0 h1 h2
   by_cases c0 : 0 < n <;> by_cases c1 : 1 < n <;> by_cases c2 : 2 < n <;> simp_all
 
-theorem length_specKeysLod (l : List AMesh) : ∀ mb sb, (specKeysLod mb sb l).length = l.length := by
-  induction l with
-  | nil => intro _ _; rfl
-  | cons x xs ih => intro mb sb; simp [specKeysLod, ih]
-
-theorem length_specKeys (l : List ALod) : ∀ n mb sb, (specKeys n mb sb l).length = min n l.length := by
-  induction l with
-  | nil => intro n _ _; cases n <;> simp [specKeys]
-  | cons x xs ih =>
-    intro n mb sb
-    cases n with
-    | zero => simp [specKeys]
-    | succ n => simp only [specKeys, List.length_cons, ih]; omega
-
 theorem startsOk_getElem? : ∀ (l : List AMesh) (ib d : Nat) (mesh : AMesh), startsOk ib l = true →
     l[d]? = some mesh →
     ∃ s rest, mesh.submeshes = s :: rest ∧ s.indexOffset.toNat = ib + psum meshIndexWords l d := by
@@ -298,6 +284,14 @@ end mesh
 
 /-! ### the mesh table -/
 
+/-- the parts list of a model that represents `a` has one entry per LOD in use -/
+theorem rep_parts_length {a : AbstractModel} (h : WF a = true) {m : MDL} (hrep : Rep a m) :
+    m.lods.length = a.lodCount.toNat := by
+  have W := wf_facts a h
+  have := (congrArg List.length hrep.parts :)
+  rw [List.length_map, length_specKeys] at this
+  have := W.lc3; have := W.lods3; omega
+
 /-- the used LODs of `m` own the consecutive mesh ranges of `a` -/
 theorem rep_rangesDisjoint {a : AbstractModel} (h : WF a = true) {m : MDL} (hrep : Rep a m) :
     RangesDisjoint m.modelData.lods a.lodCount.toNat := by
@@ -316,6 +310,11 @@ theorem rep_rangesDisjoint {a : AbstractModel} (h : WF a = true) {m : MDL} (hrep
   rw [e2, f2, f3]
   exact psum_le_of_lt meshCountOf a.lods k i _ hlk hk
 
+/-- … stated with the bound `update_headers` uses: the number of parsed LODs -/
+theorem rep_rangesDisjoint' {a : AbstractModel} (h : WF a = true) {m : MDL} (hrep : Rep a m) :
+    RangesDisjoint m.modelData.lods m.lods.length := by
+  rw [rep_parts_length h hrep]; exact rep_rangesDisjoint h hrep
+
 /-- the in-memory mesh row of mesh `d` of LOD `i` **is** the row of `modelData a` -/
 theorem rep_mesh_eq {a : AbstractModel} (h : WF a = true) (hcan : Canonical a = true) {m : MDL}
     (hrep : Rep a m) (hok : HeaderOK m) (hst : StartsFromSubmesh m) {i : Nat} {l : ALod}
@@ -323,7 +322,7 @@ theorem rep_mesh_eq {a : AbstractModel} (h : WF a = true) (hcan : Canonical a = 
     (hm : l.meshes[d]? = some mesh) :
     meshAt m.modelData.meshes (psum meshCountOf a.lods i + d) = meshRowOf a i l d mesh := by
   have W := wf_facts a h
-  have hlc : m.fileHeader.lodCount = a.lodCount := (congrArg FileHeader.lodCount hrep.fh :)
+  have hlc : m.lods.length = a.lodCount.toNat := rep_parts_length h hrep
   have hd := lt_of_getElem? hm
   obtain ⟨row, hrow, hsr⟩ := rep_lod_row hrep hl
   obtain ⟨e1, e2, e3⟩ := rep_lod_range h hrep hl hrow hsr
@@ -559,7 +558,8 @@ theorem frame_hyps (RT : RuntimeSizeFact) (a : AbstractModel) (h : WF a = true)
     m.fileHeader = { fileHeader a with
       vertexOffsets := m.fileHeader.vertexOffsets, indexOffsets := m.fileHeader.indexOffsets,
       vertexBufferSize := m.fileHeader.vertexBufferSize,
-      indexBufferSize := m.fileHeader.indexBufferSize } ∧
+      indexBufferSize := m.fileHeader.indexBufferSize,
+      lodCount := m.fileHeader.lodCount } ∧
     (∀ i, i < a.lodCount.toNat →
       m.fileHeader.vertexOffsets.get? i = (fileHeader a).vertexOffsets.get? i ∧
       m.fileHeader.indexOffsets.get? i = (fileHeader a).indexOffsets.get? i ∧
@@ -709,15 +709,16 @@ theorem frame_hyps (RT : RuntimeSizeFact) (a : AbstractModel) (h : WF a = true)
   have hfh : m.fileHeader = { fileHeader a with
       vertexOffsets := m.fileHeader.vertexOffsets, indexOffsets := m.fileHeader.indexOffsets,
       vertexBufferSize := m.fileHeader.vertexBufferSize,
-      indexBufferSize := m.fileHeader.indexBufferSize } := by
+      indexBufferSize := m.fileHeader.indexBufferSize,
+      lodCount := m.fileHeader.lodCount } := by
     have hsf := hrep.fh
     generalize fileHeader a = F at hsf hstack hruntime ⊢
     generalize m.fileHeader = G at hsf hstack hruntime ⊢
     cases F; cases G
     simp only [stripFH, FileHeader.mk.injEq] at hsf
     simp only at hstack hruntime
-    obtain ⟨q1, -, -, q2, q3, -, -, -, -, q4, q5, q6⟩ := hsf
-    subst q1 q2 q3 q4 q5 q6 hstack hruntime
+    obtain ⟨q1, -, -, q2, q3, -, -, -, -, -, q5, q6⟩ := hsf
+    subst q1 q2 q3 q5 q6 hstack hruntime
     rfl
   -- (O4) the array slots of the LODs in use
   have hnparts : m.lods.length = a.lodCount.toNat := by
